@@ -33,7 +33,7 @@ def run(tier, pid=PID, family="C01", recorder=None, extra_cases=None):
         bp = ex + rnd
         rec = lib.pmap(ss._rec_bp_c01, bp)
         domain_check([c for c in rec if c["id"].startswith("m")], t["maxn"], sc)
-        db = ss.db_cases_exhaustive(*t["dbx"]) + ss.db_cases_random(t["dbr"], lib.seed())
+        db = ss.db_cases_exhaustive(*t["dbx"]) + ss.db_cases_type_pairs() + ss.db_cases_random(t["dbr"], lib.seed())
         rec_db = lib.pmap(ss.record_db, db)
         ms = ss.ms_cases(t["ms"], lib.seed())
         rec_ms = [ss.record_ms(c) for c in ms]
